@@ -259,6 +259,15 @@ class VFSZip(VFS_Real):
     def unlink(self, selector: str):
         raise NotImplementedError("VFSZip cannot unlink files.")
 
+    def _inarchive(self, selector: str) -> bool:
+        """Whether the selector names the archive or something below it.
+        Anything else (the target of a link in a gophermap or link file that
+        points out of the archive, a URL: selector) belongs to the file system
+        the archive itself lives in."""
+        return selector == self.zipfilename or selector.startswith(
+            self.zipfilename + "/"
+        )
+
     def _getfspathfinal(self, selector: str) -> str:
         # Strip off the filename part.
         selector = selector[len(self.zipfilename) :]
@@ -275,6 +284,8 @@ class VFSZip(VFS_Real):
         return self._getfspathfinal(selector)
 
     def stat(self, selector: str):
+        if not self._inarchive(selector):
+            return self.chain.stat(selector)
         fspath = self.getfspath(selector)
         try:
             inode_data = self._getcacheentry(fspath)
@@ -316,6 +327,8 @@ class VFSZip(VFS_Real):
         )  # change time
 
     def isdir(self, selector: str) -> bool:
+        if not self._inarchive(selector):
+            return self.chain.isdir(selector)
         fspath = self.getfspath(selector)
         try:
             item = self._getcacheentry(fspath)
@@ -325,6 +338,8 @@ class VFSZip(VFS_Real):
         return type(item) == dict
 
     def isfile(self, selector: str) -> bool:
+        if not self._inarchive(selector):
+            return self.chain.isfile(selector)
         fspath = self.getfspath(selector)
         try:
             item = self._getcacheentry(fspath)
@@ -334,6 +349,8 @@ class VFSZip(VFS_Real):
         return type(item) != dict
 
     def exists(self, selector: str) -> bool:
+        if not self._inarchive(selector):
+            return self.chain.exists(selector)
         fspath = self.getfspath(selector)
         return self._isentryincache(fspath)
 
@@ -343,6 +360,8 @@ class VFSZip(VFS_Real):
 
         assert mode in ("r", "rb")
 
+        if not self._inarchive(selector):
+            return self.chain.open(selector, mode, errors=errors)
         fspath = self.getfspath(selector)
         try:
             item = self._getcacheentry(fspath)
@@ -363,6 +382,8 @@ class VFSZip(VFS_Real):
         return fp
 
     def listdir(self, selector: str) -> typing.List[str]:
+        if not self._inarchive(selector):
+            return self.chain.listdir(selector)
         fspath = self.getfspath(selector)
         try:
             retobj = self._getcacheentry(fspath)
